@@ -38,7 +38,7 @@ def judge (toks : List String) (out : List String) : String :=
     (match parseRows n.toNat! rest with
      | some (rows, _) => judgeJson true rows out
      | none => "bad unparsable-op")
-  | "proj" :: mask :: "json" :: _seed :: n :: rest =>
+  | "proj" :: _mask :: "json" :: _seed :: n :: rest =>
     (match parseRows n.toNat! rest with
      | some (rows, _) => judgeJson true rows out true
      | none => "bad unparsable-op")
